@@ -241,6 +241,10 @@ func (s *sink) apply(st step) {
 			hh := s.bc.HeaderHeight()
 			s.headers(hh+1, max(1, (int(s.w.N)*st.N+st.Of-1)/max(st.Of, 1)))
 		}
+	case "headers_to": // long worlds: up to an absolute height (around the header-hash page boundary)
+		if hh := s.bc.HeaderHeight(); s.phase() == "headers" && uint32(st.N) > hh {
+			s.headers(hh+1, st.N-int(hh))
+		}
 	case "nodes", "dup":
 		s.advance("mpt")
 		if s.phase() != "mpt" || !s.ok() {
@@ -582,6 +586,9 @@ func (d *driver) runWorld(wi int, long bool, scheds [][]step) {
 		return // reported by the judge (Resumable at point no-crash); nothing to compare crash points with
 	}
 	thorough := vh.Thorough()
+	if long {
+		scheds = [][]step{longSchedule(d.r, w.P), longSchedule(d.r, w.P)}
+	}
 	for si, sched := range scheds {
 		prim := w.life(nil, true, w.N, sched, rand.New(rand.NewSource(vh.Seed()*7919+int64(wi*1000+si))), 0, false)
 		ctx := map[string]any{"world": wi, "run": si, "stage": "none", "point": "no-crash", "depth": 0}
@@ -702,6 +709,18 @@ func randomSchedule(r *rand.Rand) []step {
 	return out
 }
 
+// longSchedule: header deliveries and flushes around the first header-hash page boundary (2000), then a random rest.
+func longSchedule(r *rand.Rand, p uint32) []step {
+	out := []step{{Op: "headers_to", N: 1990 + r.Intn(9)}, {Op: "flush"}, {Op: "headers_to", N: 1999 + r.Intn(3)}, {Op: "flush"},
+		{Op: "headers_to", N: 2001 + r.Intn(int(p)-2001)}, {Op: "flush"}}
+	for _, st := range randomSchedule(r) {
+		if st.Op != "headers" {
+			out = append(out, st)
+		}
+	}
+	return out
+}
+
 func TestDriver(t *testing.T) {
 	d := &driver{t: t, res: vh.NewResult(), tr: vh.NewTrace("trace.ndjson"), r: vh.Rand(202)}
 	var scheds [][]step
@@ -724,7 +743,7 @@ func TestDriver(t *testing.T) {
 		d.runWorld(wi, false, ss)
 	}
 	for i := 0; i < vh.EnvInt("VERIF_LONG_WORLDS", 0); i++ {
-		d.runWorld(1000+i, true, [][]step{randomSchedule(d.r), randomSchedule(d.r)})
+		d.runWorld(1000+i, true, nil)
 	}
 	d.tr.Close()
 	if err := d.res.Write(); err != nil {
